@@ -52,7 +52,8 @@ Inductive field :=
 | F_addonInfos | F_premiumArgs | F_suppressions
 | F_certainty_inconclusive | F_checks_unusedFunction | F_checks_missingInclude
 | F_userUndefs | F_includePaths | F_standards | F_enforcedLang | F_platform | F_libraries
-| F_filePath.
+| F_filePath
+| F_getMaxConfigs.   (* pseudo member: the value of Settings::getMaxConfigs(), a function of force, maxConfigsOption, userDefines *)
 
 Definition field_eqb (a b : field) : bool :=
   match a, b with
@@ -66,7 +67,7 @@ Definition field_eqb (a b : field) : bool :=
   | F_checks_unusedFunction, F_checks_unusedFunction | F_checks_missingInclude, F_checks_missingInclude
   | F_userUndefs, F_userUndefs | F_includePaths, F_includePaths | F_standards, F_standards
   | F_enforcedLang, F_enforcedLang | F_platform, F_platform | F_libraries, F_libraries
-  | F_filePath, F_filePath => true
+  | F_filePath, F_filePath | F_getMaxConfigs, F_getMaxConfigs => true
   | _, _ => false
   end.
 
@@ -75,7 +76,7 @@ Definition all_fields : list field :=
    F_userDefines; F_checkConfiguration; F_force; F_maxConfigsOption; F_checkLevel;
    F_addonInfos; F_premiumArgs; F_suppressions;
    F_certainty_inconclusive; F_checks_unusedFunction; F_checks_missingInclude;
-   F_userUndefs; F_includePaths; F_standards; F_enforcedLang; F_platform; F_libraries; F_filePath].
+   F_userUndefs; F_includePaths; F_standards; F_enforcedLang; F_platform; F_libraries; F_filePath; F_getMaxConfigs].
 
 Definition mem_field (f : field) (l : list field) : bool := existsb (field_eqb f) l.
 
